@@ -53,13 +53,15 @@ def _plan(draw, max_steps):
         items2.append(it)
     steps = []
     for _ in range(draw(st.integers(1, max_steps))):
-        kind = draw(st.sampled_from(["share", "share", "share", "edit", "edit", "use", "deepcopy"]))
+        kind = draw(st.sampled_from(["share", "share", "share", "share", "edit", "edit", "edit", "use", "deepcopy", "forget"]))
         if kind == "share":
             op = draw(st.sampled_from(SHARE))
         elif kind == "edit":
             op = draw(st.sampled_from(EDIT))
         elif kind == "use":
             op = draw(st.sampled_from(USE))
+        elif kind == "forget":
+            op = "forget"
         else:
             op = "deepcopy"
         steps.append({"op": op, "i": draw(st.integers(0, 30)), "j": draw(st.integers(0, 30)),
@@ -149,10 +151,20 @@ def check(plan, ctx):
         fresh_id[0] += 1
         return {"_id": fresh_id[0], "k": fresh_id[0] % 2}
 
+    forgotten = []
     for stepno, s in enumerate(plan["steps"]):
         node = pool[s["i"] % len(pool)]
         other = pool[s["j"] % len(pool)]
         op, a = s["op"], s["a"]
+        if op == "forget":
+            # the program drops its last reference to an intermediate list (e.g. a method chain, or a variable
+            # that is re-assigned); the lists derived from it and the lists it was derived from live on
+            if node.parent is not None and len(pool) > 2:
+                pool.remove(node)
+                forgotten.append(node)          # the model keeps the node (ancestry), the real object goes
+                node.real = None                # reference counting frees it at once if nothing else holds it
+                ctx.cls("op_forget")
+            continue
         x, y = node.real, other.real
         needs_k = op in ("semi_join", "anti_join", "inner_join", "left_join", "sort", "unique", "modify_if")
         may_raise = False
